@@ -157,6 +157,9 @@ def run_programs(rep, model, pid, name, program_sets, bound, limit, which):
         rep.count("programs", "%s%s" % ("+".join("|".join(c[0] + (":" + c[1] if c[0] == "send" else "") for c in p) for p in programs), " z" if compression else ""), len(outs))
         if model is not None and outs:
             mres = model.run(mreqs)
+            if not getattr(rep, '_watched', False):
+                rep._watched = True
+                rep.watch_extraction(model, mreqs)
             for (schedule, out), m in zip(outs, mres):
                 mlog = [tuple(x) for x in m[0]]
                 ilog = out["log"]
